@@ -156,6 +156,88 @@ def gen_function(r):
     return {"src": src, "sig": sig, "shape": shape, "mode": mode}
 
 
+def gen_sqlalchemy(r):
+    """a hand-written declarative class / Table with explicit keyword spellings the emitters never produce"""
+    cols = []
+    names = r.sample(["id", "name", "ref_id", "amount", "flag", "_rev", "payload"], r.randint(1, 5))
+    for n in names:
+        typ = r.choice(["Integer", "String", "Float", "Boolean", "JSON", "Text", "BigInteger", "Enum('a', 'b', name='kind')"])
+        kws = []
+        pk = r.choice([None, None, "True", "False"])
+        if pk:
+            kws.append("primary_key=%s" % pk)
+        nl = r.choice([None, "True", "False"])
+        if nl:
+            kws.append("nullable=%s" % nl)
+        if r.random() < 0.4:
+            kws.append("default=%s" % r.choice(["0", "'x'", "1.5", "True", "None"]))
+        if r.random() < 0.5:
+            kws.append("%s=%r" % (r.choice(["doc", "comment"]), r.choice(["the thing", "[FK(other.id)] a reference", "a count."])))
+        if r.random() < 0.2:
+            kws.append(r.choice(["index=True", "unique=True", "autoincrement=True"]))
+        pos = [typ] + (["ForeignKey('other.id')"] if n == "ref_id" and r.random() < 0.7 else [])
+        cols.append((n, pos, kws))
+    form = r.choice(["class", "class", "table"])
+    documented = r.sample(names, r.randint(0, len(names)))
+    if form == "class":
+        doc = "\n".join(["    A model.", ""] + ["    :cvar %s: documented %s" % (n, n) for n in documented])
+        body = "\n".join("    %s = Column(%s)" % (n, ", ".join(pos + kws)) for n, pos, kws in cols)
+        src = 'class Foo(Base):\n    """\n%s\n    """\n    __tablename__ = "foo"\n%s\n' % (doc, body)
+    else:
+        body = ",\n    ".join("Column(%r, %s)" % (n, ", ".join(pos + kws)) for n, pos, kws in cols)
+        src = 'foo = Table(\n    "foo",\n    metadata,\n    %s,\n    comment="A model.",\n)\n' % body
+    return {"src": src, "form": form, "explicit_pk_false": any("primary_key=False" in k for _, _, ks in cols for k in ks)}
+
+
+def gen_json_schema(r):
+    props = {}
+    names = r.sample(["a", "b", "name", "count", "tags", "ref", "mode"], r.randint(1, 5))
+    for n in names:
+        shape = r.choice(["type", "type", "anyOf1", "anyOfN", "ref", "literal", "array"])
+        p = {}
+        if shape == "type":
+            p["type"] = r.choice(["string", "integer", "number", "boolean", "object", "array"])
+        elif shape == "anyOf1":
+            p["anyOf"] = [r.choice([{"type": "string"}, {"type": "integer"}, {"$ref": "#/components/schemas/Other"}])]
+        elif shape == "anyOfN":
+            p["anyOf"] = r.sample([{"type": "string"}, {"type": "integer"}, {"type": "number"}, {"$ref": "#/components/schemas/Other"}], r.randint(2, 3))
+        elif shape == "ref":
+            p["$ref"] = "#/components/schemas/Other"
+        elif shape == "literal":
+            p.update({"type": "string", "pattern": r.choice(["alpha|beta", "x_1|b2", "only"])})
+        else:
+            p.update({"type": "array", "items": {"type": r.choice(["string", "integer"])}})
+        if r.random() < 0.7:
+            p["description"] = r.choice(["the thing", "a count.", ""])
+        if r.random() < 0.3:
+            p["default"] = r.choice([0, "x", 1.5, True, None])
+        if r.random() < 0.15:
+            p["format"] = r.choice(["date-time", "uri"])
+        props[n] = p
+    sch = {"$id": "https://offscale.io/Foo.schema.json", "$schema": "https://json-schema.org/draft/2020-12/schema", "type": "object", "properties": props,
+           "required": r.sample(names, r.randint(0, len(names)))}
+    if r.random() < 0.8:
+        sch["description"] = r.choice(["A thing.", "A thing.\n\n:return: x\n:rtype: ```int```", ""])
+    return sch
+
+
+def impl_handwritten(case):
+    import cdd.class_.parse  # noqa: F401
+    import cdd.json_schema.parse
+    import cdd.sqlalchemy.parse
+
+    kind, payload = case
+    try:
+        if kind == "json_schema":
+            return {"ir": strip_ir(cdd.json_schema.parse.json_schema(copy.deepcopy(payload)))}
+        node = ast.parse(payload["src"]).body[0]
+        if payload["form"] == "class":
+            return {"ir": strip_ir(cdd.sqlalchemy.parse.sqlalchemy(node))}
+        return {"ir": strip_ir(cdd.sqlalchemy.parse.sqlalchemy_table(node))}
+    except Exception as e:  # noqa
+        return {"raises": core.exc_name(e)}
+
+
 def impl_docstring(d):
     import cdd.class_.parse  # noqa: F401
     from cdd.docstring.parse import docstring as parse
@@ -279,6 +361,25 @@ def run(chk: core.Check) -> int:
         for clause, detail in wf_problems(unstrip(r["ir"])):
             chk.failure({"parser": fmt, "clause": clause, "detail": detail.split(":")[-1] if clause == "typ-unparsable" else (detail if clause == "extra-keys" else None)},
                         "%s parser: %s %s" % (fmt, clause, detail), {"fn": "emitted", "fmt": fmt, "ir": json.loads(json.dumps(ir, default=repr))})
+    # (4b) hand-written SQLAlchemy models and JSON-schemas (keyword spellings and shapes the project's emitters never produce)
+    hw = [("sqlalchemy", gen_sqlalchemy(rng)) for _ in range(n)] + [("json_schema", gen_json_schema(rng)) for _ in range(n)]
+    res = core.guarded_map(impl_handwritten, hw, 10.0)
+    for (kind, payload), r in zip(hw, res):
+        ok = bool(r) and "ir" in r
+        chk.count((kind, json.dumps(payload, sort_keys=True)), ok)
+        if not ok:
+            continue
+        key = "handwritten-" + (kind if kind == "json_schema" else "sqlalchemy-" + payload["form"])
+        accepted[key] = accepted.get(key, 0) + 1
+        for clause, detail in wf_problems(unstrip(r["ir"])):
+            if clause == "extra-keys":
+                # unrecognised Column keywords / schema keywords are copied into the entry verbatim (one root cause); keywords the
+                # parsers are meant to CONSUME (primary_key, foreign_key, nullable, required, type, anyOf, ...) are kept apart
+                passthrough = {"index", "unique", "autoincrement", "server_default", "onupdate", "format", "items", "pattern", "enum", "minimum", "maximum"}
+                ks = set(detail.split(","))
+                detail = "passthrough-keyword" if ks <= passthrough else ",".join(sorted(ks - passthrough))
+            chk.failure({"parser": key, "clause": clause, "detail": detail.split(":")[-1] if clause == "typ-unparsable" else (detail if clause == "extra-keys" else None)},
+                        "%s parser: %s %s" % (key, clause, detail), {"fn": "handwritten", "kind": kind, "payload": payload})
     chk.coverage["accepted_inputs_by_parser"] = accepted
     # (5) the model's witness replayed on the real parser + model/real agreement on WF-relevant structure for ReST texts
     if core.DRIVER.exists():
@@ -310,6 +411,9 @@ def replay(path: str) -> int:
     elif d["fn"] == "function":
         r = impl_function(d["g"])
         sig = [tuple(x) for x in d["g"]["sig"]]
+    elif d["fn"] == "handwritten":
+        r = impl_handwritten((d["kind"], d["payload"]))
+        sig = None
     else:
         from collections import OrderedDict
 
